@@ -487,7 +487,14 @@ func runC18(c *Ctx) {
 		}
 		var got []string
 		for _, ci := range CallsIn(fn, "(*tq.adapterBase).newHTTPRequest") {
-			m, _ := ConstString(ci.Common().Args[1])
+			// the method is the constant string among the arguments (wherever a refactor put it)
+			m := ""
+			for _, a := range ci.Common().Args[1:] {
+				if sv, isC := ConstString(a); isC {
+					m = sv
+					break
+				}
+			}
 			got = append(got, m)
 		}
 		sort.Strings(got)
